@@ -42,8 +42,8 @@ WORDS = ["a", "b", "x1", "-l", "-a", "--flag", "--k=v", "k=v", "./p", "/x/y", "a
 CMDS = ["t", "ok", "fail", "emit"]
 HANG_S = 60          # equivalence part: wall clock (children are involved)
 PARSE_CPU_S = 60     # termination part: CPU seconds of this process (robust against a loaded machine)
-CONFIRM_CPU_S = 1500 # an input over PARSE_CPU_S is run again with this bound before it is called a hang: the recovery loop
-                     # may double the line at every retry (25 retries: 44 characters -> 12 MB, 100-300 CPU-s) and still end
+CONFIRM_CPU_S = 300  # an input over PARSE_CPU_S is run again with this bound before it is called a hang: the recovery loop
+                     # may double the line at every retry (25 retries: 44 characters -> 12 MB, 105-125 CPU-s measured) and still end
 
 _state = {}
 
@@ -473,7 +473,7 @@ def parse_only(text, cpu_s=None):
     from vlib import session
 
     ex = session.get_execer()
-    cpu_s = cpu_s or PARSE_CPU_S
+    cpu_s = cpu_s or _state.get("cpu_bound", PARSE_CPU_S)
     signal.setitimer(signal.ITIMER_VIRTUAL, cpu_s, 2.0)
     try:
         try:
@@ -510,7 +510,11 @@ def classify_fuzz(text, kind):
 
 def confirm_hang(text, st):
     """An input over the first bound is run again with the long one; only then is it a hang.  -> (kind, detail) / None"""
-    if st.hist.get("hang-confirmations", 0) >= 4:
+    if st.hist.get("hang-confirmed", 0) >= 1:
+        # one confirmed hang per worker is reported; further candidates of the same run are not worth 300 CPU-s each
+        st.hist["hang-candidates-after-a-confirmed-hang"] = st.hist.get("hang-candidates-after-a-confirmed-hang", 0) + 1
+        return None
+    if st.hist.get("hang-confirmations", 0) >= 3:
         st.inconclusive += 1
         st.hist["slow-unconfirmed"] = st.hist.get("slow-unconfirmed", 0) + 1
         return None
@@ -518,6 +522,8 @@ def confirm_hang(text, st):
     t0 = time.process_time()
     r = parse_only(text, CONFIRM_CPU_S)
     if r is not None and r[0] == "hang":
+        st.hist["hang-confirmed"] = st.hist.get("hang-confirmed", 0) + 1
+        _state["cpu_bound"] = 10      # a hang is already being reported by this worker: do not spend a minute on every further one
         return r
     st.inconclusive += 1
     st.hist["slow-but-terminates"] = st.hist.get("slow-but-terminates", 0) + 1
